@@ -121,6 +121,19 @@ def model_transform(ts, v):
     return round(v, ndigits=ts[1])
 
 
+BIG_SIZES = [57, 58, 76, 77, 1023, 1024, 1025, 4095, 4096, 4097, 8192, 8193, 49152, 65535, 65536, 65537, 98304, 131072, 131073, 196609, 262145]
+
+
+def expand_text(pattern, n):
+  """A latin-1 text of exactly n characters, a deterministic non-periodic function of (pattern, n)."""
+  out, i = [], 0
+  key = pattern.encode('latin-1')
+  while 32 * len(out) < n:
+    out.append(hashlib.sha256(key + b'/%d' % i).digest())
+    i += 1
+  return (pattern.encode('latin-1') + b''.join(out))[:n].decode('latin-1')
+
+
 def check(case):
   r = CaseResult()
   prog = copy.deepcopy(case['prog'])
@@ -239,7 +252,11 @@ def check(case):
           name = 'att%d%s' % (op[1], op[3])
           if name in attached:
             continue
-          datab = op[2].encode('latin-1') if op[4] == 'bytes' else op[2]
+          text = op[2]
+          if len(op) > 6 and op[6]:
+            text = expand_text(op[2], op[6])
+            flags['big_attachment'] = True
+          datab = text.encode('latin-1') if op[4] == 'bytes' else text
           mt = {'infer': 'INFER', 'none': None}.get(op[5], op[5])
           if mt == 'INFER':
             test.attach(name, datab)
@@ -293,6 +310,7 @@ def check(case):
   json_errors = {}
 
   def json_cb(rec, allow):
+    n_logs_before = len(rec.log_records)
     try:
       json_factory.OutputToJSON(sinks[allow], allow_nan=allow)(rec)
     except Exception as e:  # pylint: disable=broad-except
@@ -302,6 +320,9 @@ def check(case):
         rendered['bt'] = copy.deepcopy(rec.as_base_types())
       except Exception as e:  # pylint: disable=broad-except
         rendered['bt_error'] = e
+      # threads of abandoned (timed-out) phases log whenever they finally exit; if one did so around the JSON rendering,
+      # the two renderings legitimately describe different moments and their log lists are not compared
+      rendered['logs_moved'] = len(rec.log_records) != n_logs_before
 
   rendered = {}
   test.add_output_callbacks(lambda rec: json_cb(rec, False), lambda rec: json_cb(rec, True))
@@ -407,20 +428,28 @@ def check(case):
         if aj is None or 'data' not in aj:
           r.bad('C10/json/attachment-missing', '%s' % aname)
           continue
-        raw = base64.standard_b64decode(aj['data'])
+        b64 = aj.pop('data')
+        try:
+          raw = base64.b64decode(b64, validate=True)
+        except Exception as e:  # pylint: disable=broad-except
+          r.bad('C10/json/attachment-not-base64', '%s (%d bytes attached): %r' % (aname, len(attached.get(aname, (b'',))[0]), e))
+          continue
         if aname in attached and raw != attached[aname][0]:
           r.bad('C10/json/attachment-bytes', '%s: %d bytes decoded, %d attached' % (aname, len(raw), len(attached[aname][0])))
         if hashlib.sha1(raw).hexdigest() != aj.get('sha1'):
           r.bad('C10/json/attachment-sha1', aname)
-        aj.pop('data')
     if not allow:
+      if rendered.get('logs_moved'):
+        doc.pop('log_records', None)
+        view.pop('log_records', None)
+        flags['logs_moved'] = True
       d = first_diff(doc, json.loads(json.dumps(view, default=lambda o: o._asdict(), allow_nan=False)), 'json', tuples_as_lists=True)
       if d:
         r.bad('C10/json/differs-from-base-types', d)
   feats = progs.features(case['prog'])
   shape = bool(rec.checkpoints or rec.branches or rec.subtests)
   r.nontrivial = bool(rich_ran and (flags['override'] or flags['dim_transform'] or flags['read_between_writes'])) or shape
-  r.classes = [k for k in ('override', 'dim_transform', 'read_between_writes') if flags[k]] + (
+  r.classes = [k for k in ('override', 'dim_transform', 'read_between_writes', 'big_attachment', 'logs_moved') if flags.get(k)] + (
       ['rich-ran'] if rich_ran else ['rich-not-reached']) + (['shape'] if shape else []) + (
           ['has-checkpoint'] if rec.checkpoints else []) + (['has-branch'] if rec.branches else []) + (['has-subtest'] if rec.subtests else [])
   return r
@@ -465,9 +494,12 @@ def ops(draw, decls):
     c = draw(st.one_of(st.integers(0, 2), st.sampled_from(['a', 'b']), st.tuples(st.integers(0, 2), st.integers(0, 1))))
     return ['setc', i, _encv(c), draw(NUMERIC if numeric else VALUES)]
   if kind == 'attach':
+    # sizes are not narrowed: most attachments are a few bytes, one in five is grown (deterministically from the drawn
+    # text) to a length around the block sizes of base64 / buffered IO or to an arbitrary length up to 300 kB
+    size = draw(st.one_of(st.just(0), st.just(0), st.just(0), st.just(0), st.sampled_from(BIG_SIZES), st.integers(13, 300000)))
     return ['attach', draw(st.integers(0, 3)), draw(st.text(alphabet=[chr(i) for i in range(256)], max_size=12)),
             draw(st.sampled_from(['', '.txt', '.png', '.bin'])), draw(st.sampled_from(['bytes', 'str'])),
-            draw(st.sampled_from(['infer', 'none', 'text/plain', 'application/x-vf']))]
+            draw(st.sampled_from(['infer', 'none', 'text/plain', 'application/x-vf'])), size]
   if kind == 'log':
     return ['log', draw(st.sampled_from(['info', 'warning', 'debug', 'error'])), draw(st.text(max_size=6))]
   return [kind]
